@@ -378,7 +378,18 @@ func cmdCheck(args []string) int {
 	// bounded stand-ins (never counted as proved)
 	standins, sfail, shits := runStandins(*repo, *verif, prop, *tier, seed, known)
 	for _, k := range shits {
-		fmt.Printf("KNOWN-FINDING: %s\n", k.Text)
+		line := fmt.Sprintf("KNOWN-FINDING: %s", k.Text)
+		dup := false
+		for _, h := range knownHits {
+			if h == line {
+				dup = true
+			}
+		}
+		if !dup {
+			// (a finding already reported through its failed obligation is not repeated)
+			fmt.Println(line)
+			knownHits = append(knownHits, line)
+		}
 	}
 	for i, f := range sfail {
 		path := filepath.Join(*verif, "replays", fmt.Sprintf("%s-standin-%d.json", prop, i))
